@@ -736,16 +736,16 @@ theorem eval_namePart (n : Nat) (ctx : Ctx) (before : RT) (tie abbr : Bool) (cs 
 
 theorem eval_href (n : Nat) (ctx : Ctx) (url : T) (ext : Bool) (cs : List T) :
     eval (n + 1) ctx (.href url ext cs) =
-      match evalList n ctx cs with
+      match eval n ctx url with
       | .error e => .error e
-      | .ok parts =>
-        match eval n ctx url with
+      | .ok u =>
+        match evalList n ctx cs with
         | .error e => .error e
-        | .ok u => .ok (mk (.href (toStr u) ext) parts) := by
+        | .ok parts => .ok (mk (.href (toStr u) ext) parts) := by
   simp only [eval]
-  cases evalList n ctx cs with
+  cases eval n ctx url with
   | error e => rfl
-  | ok parts => cases eval n ctx url <;> rfl
+  | ok u => cases evalList n ctx cs <;> rfl
 
 /-- the text a `sentence` node builds from the values of its children -/
 def sentenceText (cf cap ap : Bool) (sep : RT) (parts : List RT) : RT :=
@@ -846,10 +846,10 @@ theorem eval_missing_sound (ctx : Ctx) : ∀ fuel,
         simp only [eval] at h
         split at h
         · rename_i e he; simp only [Except.error.injEq] at h; subst h
-          exact (ih2 _ _ he).mono (by simp [requiredNodes]; intro lk hlk; exact Or.inl hlk)
+          exact (ih1 _ _ he).mono (by simp [requiredNodes]; intro lk hlk; exact Or.inr hlk)
         · split at h
           · rename_i e he; simp only [Except.error.injEq] at h; subst h
-            exact (ih1 _ _ he).mono (by simp [requiredNodes]; intro lk hlk; exact Or.inr hlk)
+            exact (ih2 _ _ he).mono (by simp [requiredNodes]; intro lk hlk; exact Or.inl hlk)
           · cases h
       | namePart before tie abbr cs =>
         rw [eval_namePart] at h
@@ -962,12 +962,12 @@ theorem eval_mono_step (ctx : Ctx) : ∀ n,
         have hsub : evalList n ctx cs ≠ .error .outOfFuel := by intro h; apply hne; simp only [eval, h]
         simp only [eval, ih2 cs hsub]
       | href url ext cs =>
-        have hsub : evalList n ctx cs ≠ .error .outOfFuel := by intro h; apply hne; simp only [eval_href, h]
-        cases hcs : evalList n ctx cs with
-        | error e => simp only [eval_href, ih2 cs hsub, hcs]
-        | ok parts =>
-          have hsub2 : eval n ctx url ≠ .error .outOfFuel := by intro h; apply hne; simp only [eval_href, hcs, h]
-          simp only [eval_href, ih2 cs hsub, hcs, ih1 url hsub2]
+        have hsub : eval n ctx url ≠ .error .outOfFuel := by intro h; apply hne; simp only [eval_href, h]
+        cases hu : eval n ctx url with
+        | error e => simp only [eval_href, ih1 url hsub, hu]
+        | ok u =>
+          have hsub2 : evalList n ctx cs ≠ .error .outOfFuel := by intro h; apply hne; simp only [eval_href, hu, h]
+          simp only [eval_href, ih1 url hsub, hu, ih2 cs hsub2]
       | namePart before tie abbr cs =>
         have hsub : evalList n ctx cs ≠ .error .outOfFuel := by intro h; apply hne; simp only [eval_namePart, h]
         simp only [eval_namePart, ih2 cs hsub]
@@ -1110,11 +1110,11 @@ theorem missing_of_failsWith (ctx : Ctx) : ∀ fuel,
       | href url ext cs =>
         simp only [eval] at h
         split at h
-        · rename_i e he; simp only [Except.error.injEq] at h; subst h; exact .hrefKids (ih2 _ _ he)
-        · rename_i parts hparts
+        · rename_i e he; simp only [Except.error.injEq] at h; subst h; exact .hrefUrl (ih1 _ _ he)
+        · rename_i u hu
           split at h
           · rename_i e he; simp only [Except.error.injEq] at h; subst h
-            exact .hrefUrl ⟨n, parts, hparts⟩ (ih1 _ _ he)
+            exact .hrefKids ⟨n, u, hu⟩ (ih2 _ _ he)
           · cases h
       | namePart before tie abbr cs =>
         rw [eval_namePart] at h
@@ -1170,14 +1170,14 @@ theorem failsWith_of_missing {ctx : Ctx} {x : Tgt} {f : Str} (h : Missing ctx x 
   | namePart _ ih =>
     obtain ⟨fuel, hfl⟩ := ih
     exact ⟨fuel + 1, by simp only [failsWith] at hfl ⊢; simp only [eval_namePart, hfl]⟩
-  | hrefKids _ ih =>
+  | hrefUrl _ ih =>
     obtain ⟨fuel, hfl⟩ := ih
     exact ⟨fuel + 1, by simp only [failsWith] at hfl ⊢; simp only [eval, hfl]⟩
-  | hrefUrl hok _ ih =>
-    obtain ⟨fuel1, parts, hparts⟩ := hok
+  | hrefKids hok _ ih =>
+    obtain ⟨fuel1, u, hu⟩ := hok
     obtain ⟨fuel2, hfl⟩ := ih
     refine ⟨max fuel1 fuel2 + 1, ?_⟩
-    have h1 := evalList_mono hparts (by simp) (max fuel1 fuel2) (Nat.le_max_left _ _)
+    have h1 := eval_mono hu (by simp) (max fuel1 fuel2) (Nat.le_max_left _ _)
     have h2 := failsWith_mono hfl (max fuel1 fuel2) (Nat.le_max_right _ _)
     simp only [failsWith] at h2 ⊢
     simp only [eval, h1, h2]
@@ -1431,10 +1431,10 @@ theorem eval_terminated (ctx : Ctx) : ∀ fuel,
         rw [eval_href] at h
         split at h
         · cases h
-        · rename_i parts hp
-          split at h
+        · split at h
           · cases h
-          · simp only [Except.ok.injEq] at h; subst h
+          · rename_i parts hp
+            simp only [Except.ok.injEq] at h; subst h
             exact terminated_mk _ (ih2 cs parts (by simpa [endsInSentence] using he) hp)
       | namePart before tie abbr cs => simp [endsInSentence] at he
     · intro ts rs he h
@@ -2145,10 +2145,10 @@ theorem eval_coverage (ctx : Ctx) : ∀ fuel,
         rw [eval_href] at h
         split at h
         · cases h
-        · rename_i parts hp
-          split at h
+        · split at h
           · cases h
-          · simp only [Except.ok.injEq] at h; subst h
+          · rename_i parts hp
+            simp only [Except.ok.injEq] at h; subst h
             obtain ⟨p, hpm, hc⟩ := ih2 cs parts hp o (by simpa [printed] using ho)
             exact hc.of_infix (toStr_infix_mk _ hpm)
       | namePart before tie abbr cs =>
@@ -2437,10 +2437,10 @@ theorem eval_nameCoverage (ctx : Ctx) : ∀ fuel,
         rw [eval_href] at h
         split at h
         · cases h
-        · rename_i parts hp
-          split at h
+        · split at h
           · cases h
-          · simp only [Except.ok.injEq] at h; subst h
+          · rename_i parts hp
+            simp only [Except.ok.injEq] at h; subst h
             obtain ⟨p, hpm, hc⟩ := ih2 cs parts hp o (by simpa [printedN] using ho)
             exact hc.of_infix (toStr_infix_mk _ hpm)
       | namePart before tie abbr cs =>
